@@ -81,10 +81,12 @@ type virtualStreamListener struct {
 var _ StreamListener = (*virtualStreamListener)(nil)
 
 func (sl *virtualStreamListener) AcceptStream() (transport.StreamConn, error) {
+	vgate("A1")
 	sl.mu.Lock()
 	acceptCh := sl.acceptCh
 	sl.mu.Unlock()
 
+	vgate("A2")
 	select {
 	case acceptResponse, ok := <-acceptCh:
 		if !ok {
@@ -97,6 +99,7 @@ func (sl *virtualStreamListener) AcceptStream() (transport.StreamConn, error) {
 }
 
 func (sl *virtualStreamListener) Close() error {
+	vgate("C1")
 	sl.mu.Lock()
 	defer sl.mu.Unlock()
 
@@ -142,6 +145,8 @@ func (pc *virtualPacketConn) ReadFrom(p []byte) (int, net.Addr, error) {
 		err  error
 	}, 1)
 
+	vgate("A1")
+	vgate("A2")
 	select {
 	case pc.readCh <- readRequest{
 		buffer: p,
@@ -158,6 +163,7 @@ func (pc *virtualPacketConn) ReadFrom(p []byte) (int, net.Addr, error) {
 // Close closes the virtualPacketConn. It must be called once, and only once,
 // per virtualPacketConn.
 func (pc *virtualPacketConn) Close() error {
+	vgate("C1")
 	pc.mu.Lock()
 	defer pc.mu.Unlock()
 
@@ -198,6 +204,7 @@ func NewMultiStreamListener(addr string, onCloseFunc OnCloseFunc) MultiListener[
 }
 
 func (m *multiStreamListener) Acquire() (StreamListener, error) {
+	vgate("L2")
 	m.mu.Lock()
 	defer m.mu.Unlock()
 
@@ -214,6 +221,7 @@ func (m *multiStreamListener) Acquire() (StreamListener, error) {
 		m.acceptCh = make(chan acceptResponse)
 		go func() {
 			for {
+				vgate("Gtop")
 				m.mu.Lock()
 				ln := m.ln
 				m.mu.Unlock()
@@ -221,11 +229,13 @@ func (m *multiStreamListener) Acquire() (StreamListener, error) {
 				if ln == nil {
 					return
 				}
+				vgate("Gaccept")
 				conn, err := ln.AcceptStream()
 				if errors.Is(err, net.ErrClosed) {
 					close(m.acceptCh)
 					return
 				}
+				vgate("Gsend")
 				m.acceptCh <- acceptResponse{conn, err}
 			}
 		}()
@@ -237,6 +247,7 @@ func (m *multiStreamListener) Acquire() (StreamListener, error) {
 		acceptCh: m.acceptCh,
 		closeCh:  make(chan struct{}),
 		onCloseFunc: func() error {
+			vgate("C2")
 			m.mu.Lock()
 			defer m.mu.Unlock()
 			m.count--
@@ -273,6 +284,7 @@ func NewMultiPacketListener(addr string, onCloseFunc OnCloseFunc) MultiListener[
 }
 
 func (m *multiPacketListener) Acquire() (net.PacketConn, error) {
+	vgate("L2")
 	m.mu.Lock()
 	defer m.mu.Unlock()
 
@@ -287,8 +299,10 @@ func (m *multiPacketListener) Acquire() (net.PacketConn, error) {
 		go func() {
 			buffer := make([]byte, serverUDPBufferSize)
 			for {
+				vgate("Pread")
 				n, addr, err := m.pc.ReadFrom(buffer)
 				pkt := buffer[:n]
+				vgate("Psel")
 				select {
 				case req := <-m.readCh:
 					n := copy(req.buffer, pkt)
@@ -310,6 +324,7 @@ func (m *multiPacketListener) Acquire() (net.PacketConn, error) {
 		readCh:     m.readCh,
 		closeCh:    make(chan struct{}),
 		onCloseFunc: func() error {
+			vgate("C2")
 			m.mu.Lock()
 			defer m.mu.Unlock()
 			m.count--
@@ -351,6 +366,7 @@ func NewListenerManager() ListenerManager {
 }
 
 func (m *listenerManager) ListenStream(addr string) (StreamListener, error) {
+	vgate("L1")
 	m.mu.Lock()
 	defer m.mu.Unlock()
 
@@ -359,6 +375,7 @@ func (m *listenerManager) ListenStream(addr string) (StreamListener, error) {
 		streamLn = NewMultiStreamListener(
 			addr,
 			func() error {
+				vgate("C4")
 				m.mu.Lock()
 				delete(m.streamListeners, addr)
 				m.mu.Unlock()
@@ -375,6 +392,7 @@ func (m *listenerManager) ListenStream(addr string) (StreamListener, error) {
 }
 
 func (m *listenerManager) ListenPacket(addr string) (net.PacketConn, error) {
+	vgate("L1")
 	m.mu.Lock()
 	defer m.mu.Unlock()
 
@@ -383,6 +401,7 @@ func (m *listenerManager) ListenPacket(addr string) (net.PacketConn, error) {
 		packetLn = NewMultiPacketListener(
 			addr,
 			func() error {
+				vgate("C4")
 				m.mu.Lock()
 				delete(m.packetListeners, addr)
 				m.mu.Unlock()
